@@ -239,9 +239,11 @@ class PDFResourceManager:
                 font = PDFCIDFont(self, spec)
             elif subtype == "Type0":
                 # Type0 Font
-                dfonts = list_value(spec["DescendantFonts"])
-                assert dfonts
-                subspec = dict_value(dfonts[0]).copy()
+                dfonts = list_value(spec.get("DescendantFonts"))
+                subspec = dict_value(dfonts[0]).copy() if dfonts else {}
+                if literal_name(subspec.get("Subtype")) == "Type0":
+                    # a descendant must be a CIDFont; this one would recurse
+                    subspec = {}
                 for k in ("Encoding", "ToUnicode"):
                     if k in spec:
                         subspec[k] = resolve1(spec[k])
